@@ -29,6 +29,7 @@ from ..utils import (
     suppress_body,
     UnexpectedMessageError,
     valid_server_name,
+    validate_header_part,
 )
 
 TRAILERS_VERSIONS = {"2", "3"}
@@ -176,7 +177,7 @@ class HTTPStream:
                 and self.scope["http_version"] in EARLY_HINTS_VERSIONS
                 and self.state == ASGIHTTPState.REQUEST
             ):
-                headers = [(b"link", bytes(link).strip()) for link in message["links"]]
+                headers = [(b"link", validate_header_part(link)) for link in message["links"]]
                 await self.send(
                     InformationalResponse(
                         stream_id=self.stream_id,
